@@ -38,6 +38,9 @@ def gen(rng, tier):
     for _ in range(150 if quick else 2500):
         sigma = rng.choice(['a', 'ab', 'abc', ''])
         cases.append({'kind': 'pair', 'D1': G.random_dfa(rng, rng.randint(1, 5), sigma), 'D2': G.random_dfa(rng, rng.randint(1, 5), sigma, names=['p%d' % i for i in range(rng.randint(1, 5))])})
+    for _ in range(60 if quick else 1000):
+        sigma = rng.choice(['a', 'ab'])
+        cases.append({'kind': 'pair', 'D1': G.random_dfa(rng, rng.randint(2, 3), sigma, names=['p', 'p_1', 'p_1_q']), 'D2': G.random_dfa(rng, 2, sigma, names=['q', '1_q'])})
     singles = G.all_dfas(2, 'ab') + G.all_dfas(3, 'a') + G.all_dfas(1, 'ab')
     if not quick:
         singles += G.all_dfas(4, 'a') + rng.sample(G.all_dfas(3, 'ab'), 2000)
